@@ -231,8 +231,8 @@ def _guard(fn, stage):
     from ppci.irutils.reader import IrParseException
 
     try:
-        with contextlib.redirect_stdout(io.StringIO()):  # the C3 type checker prints initialiser lists
-            fn()
+        with contextlib.redirect_stdout(io.StringIO()), contextlib.redirect_stderr(io.StringIO()):
+            fn()  # (the C3 front end prints initialiser lists and its diagnostics)
     except (CompilerError, TaskError, IrParseException) as e:
         return ("diag", type(e).__name__, str(getattr(e, "msg", e))[:80])
     except RecursionError as e:
